@@ -353,7 +353,10 @@ func C04(c *vf.Ctx) {
 						// earlier write of the same call keeps precedence.
 						inTransport := before.App[op.T] == "tw"
 						// (a request that does not marshal fails with the encoding's own error whenever the call gets that far)
-						if res != "Canceled" && res != "marshalErr" && !localErr(res) && !v.relwErr && !(res == "EOF" && !inTransport) {
+						// (a unary call that already has its reply, or the decoder's verdict on it, and is only writing its Close
+						// returns that outcome)
+						ownOutcome := op.Kind == "Invoke" && (strings.HasPrefix(res, "msg:") || res == "decodeErr")
+						if res != "Canceled" && res != "marshalErr" && !ownOutcome && !localErr(res) && !v.relwErr && !(res == "EOF" && !inTransport) {
 							out = append(out, finding{"C04", fmt.Sprintf("blocked send (%s) of a cancelled RPC returned %s, not the context's error (hard cancel)", op.Kind, res), at, map[string]any{"op": op, "was": bw}})
 						}
 					}
